@@ -54,6 +54,8 @@ type hsOp struct {
 }
 
 type hsPlan struct {
+	graceful   bool
+	healWUOnly bool
 	focus        string
 	sched        string
 	maxStreams   uint32
@@ -216,11 +218,17 @@ func hsDrawPlan(rt *rapid.T, focus string) *hsPlan {
 			p.ops = append(p.ops, hsOp{kind: "rst", s: c.Intn(opened), code: ErrCode(vs.Pick(c, 8, 0, 2, 5))})
 		case k == 13:
 			p.ops = append(p.ops, hsOp{kind: "ping", n: c.Intn(1 << 16)})
+		case k == 15 && focus == "C08" && opened > 0 && !p.graceful && vs.Pct(c, 40):
+			// graceful shutdown in mid-run: GOAWAY(NO_ERROR) from the client, or the
+			// server's own Shutdown; streams already open must still be served
+			p.graceful = true
+			p.ops = append(p.ops, hsOp{kind: "graceful", connLvl: vs.Bool(c)})
 		case k == 14 && focus == "C16":
 			p.ops = append(p.ops, hsOp{kind: "sleep", dur: time.Duration(vs.Pick(c, 1, 100, 1000, 3000)) * time.Millisecond})
 		}
 	}
 	p.nstreams = opened
+	p.healWUOnly = focus == "C08" && vs.Bool(c)
 	if focus == "C16" {
 		nb := vs.Range(c, 1, 6)
 		for i := 0; i < nb; i++ {
@@ -318,6 +326,8 @@ type hsRun struct {
 	ackedSrvSet  bool
 	goAway       bool
 	goAwayCode   ErrCode
+	gracefulSent bool // graceful shutdown started by the harness (client GOAWAY(NO_ERROR) or server Shutdown)
+	srvGraceful  bool // the server's GOAWAY(NO_ERROR) was seen
 	srvClosed    bool
 
 	// client -> server ledgers
@@ -595,6 +605,10 @@ func (r *hsRun) doOp(op hsOp) {
 	switch op.kind {
 	case "open":
 		st := r.streams[op.s]
+		if r.gracefulSent {
+			r.tr.Ev("  skip open %d (graceful shutdown)", op.s)
+			return
+		}
 		// a well-formed over-limit open is only attempted in the C15/C16 focus
 		if r.p.focus != "C15" && r.p.focus != "C16" && int64(r.openStreamsClientView()) >= r.srvMaxStr {
 			r.tr.Ev("  skip open %d (at limit)", op.s)
@@ -781,6 +795,34 @@ func (r *hsRun) doOp(op hsOp) {
 		r.mu.Unlock()
 		time.Sleep(op.dur)
 		r.mu.Lock()
+	case "graceful":
+		if r.gracefulSent || r.goAway || r.srvClosed || r.sc == nil {
+			return
+		}
+		// atomic with respect to the client's own frames: no HEADERS frame of ours
+		// may cross the server's GOAWAY (it would be ignored, legitimately)
+		r.mu.Unlock()
+		r.conn.DeliverAll()
+		r.mu.Lock()
+		if r.goAway || r.srvClosed {
+			return
+		}
+		r.gracefulSent = true
+		open := r.openStreamsClientView()
+		if op.connLvl {
+			r.sc.startGracefulShutdown()
+			r.tr.Ev("  server Shutdown (graceful) with %d streams open", open)
+		} else {
+			r.fr.WriteGoAway(0, ErrCodeNo, nil)
+			r.tr.Ev("  GOAWAY(NO_ERROR) from client with %d streams open", open)
+			r.mu.Unlock()
+			r.conn.DeliverAll()
+			r.mu.Lock()
+		}
+		vs.G.Inc("probe.graceful_shutdown_started")
+		if open > 0 {
+			vs.G.Inc("probe.graceful_shutdown_with_open_streams")
+		}
 	}
 }
 
@@ -794,7 +836,9 @@ func (r *hsRun) heal() {
 		return
 	}
 	last := r.cSettings[len(r.cSettings)-1]
-	if last.iw < 1<<20 || last.mf != 16384 {
+	// (half of the runs heal with WINDOW_UPDATE frames alone: 2^29 per stream and
+	// for the connection is ample whatever SETTINGS_INITIAL_WINDOW_SIZE is)
+	if (last.iw < 1<<20 || last.mf != 16384) && !r.p.healWUOnly {
 		r.fr.WriteSettings(Setting{SettingInitialWindowSize, 1 << 20}, Setting{SettingMaxFrameSize, 16384})
 		r.cSettings = append(r.cSettings, hsSettings{endOff: r.cw(), iw: 1 << 20, mf: 16384})
 	}
@@ -951,9 +995,19 @@ func (r *hsRun) onServerFrame(f *vmFrame) *vs.Violation {
 			}
 		}
 	case FrameGoAway:
+		var code ErrCode = 0xffff
+		if len(f.Payload) >= 8 {
+			code = ErrCode(uint32(f.Payload[4])<<24 | uint32(f.Payload[5])<<16 | uint32(f.Payload[6])<<8 | uint32(f.Payload[7]))
+		}
+		if r.gracefulSent && code == ErrCodeNo {
+			// the answer to the graceful shutdown the harness started: streams up to
+			// last-stream-id (all of ours: nothing was in flight) are still served
+			r.srvGraceful = true
+			break
+		}
 		r.goAway = true
 		if len(f.Payload) >= 8 {
-			r.goAwayCode = ErrCode(uint32(f.Payload[4])<<24 | uint32(f.Payload[5])<<16 | uint32(f.Payload[6])<<8 | uint32(f.Payload[7]))
+			r.goAwayCode = code
 		}
 	case FrameRSTStream:
 		if st != nil && len(f.Payload) == 4 {
@@ -1224,8 +1278,11 @@ func hsRunOnce(t *testing.T, rt *rapid.T, focus string) {
 		sim.Done = func() bool {
 			r.mu.Lock()
 			defer r.mu.Unlock()
-			if r.srvClosed {
+			if r.srvClosed && !r.gracefulSent {
 				return true
+			}
+			if r.srvClosed {
+				return sim.AllTasksDone()
 			}
 			return r.healed && r.conn.InflightAB() == 0 && r.conn.InflightBA() == 0 && sim.AllTasksDone()
 		}
@@ -1303,7 +1360,7 @@ func (r *hsRun) final(sim *vs.Sim, harness *string) *vs.Violation {
 	if r.srvPanic != nil {
 		return vs.Violf("C16", "serve_panic", "srv:serve_panic", "panic on the server's connection goroutine: %v", r.srvPanic)
 	}
-	if r.honest && (r.goAway || r.srvClosed) && r.goAwayCode != ErrCodeFlowControl {
+	if r.honest && (r.goAway || (r.srvClosed && !r.gracefulSent)) && r.goAwayCode != ErrCodeFlowControl {
 		// An honest client never gives the server a reason to end the connection.
 		// This is classified as a harness problem, not a violation (see DESIGN 5/C15).
 		ov := false
@@ -1315,8 +1372,11 @@ func (r *hsRun) final(sim *vs.Sim, harness *string) *vs.Violation {
 		}
 		return nil
 	}
-	if r.goAway || r.srvClosed {
+	if r.goAway || (r.srvClosed && !r.gracefulSent) {
 		return nil
+	}
+	if r.srvClosed && !sim.AllTasksDone() {
+		return nil // graceful shutdown completed but a handler outlived its (reset) stream
 	}
 	if sim.Stuck {
 		// bounded liveness: after the heal every handler must finish
